@@ -11,11 +11,15 @@ LineChoices == {<<>>, <<97>>, <<SP, 98>>}
 LineSeqs == UNION {[1..n -> LineChoices] : n \in 1..3}
 Values == {Join(ls, <<LF>>) \o t : ls \in LineSeqs, t \in {<<>>, <<LF>>}}
 SmallValues == {<<>>, <<97>>, <<97, LF>>, <<97, LF, LF, 98>>, <<97, LF, SP, 98, LF>>, <<LF, 97>>, <<97, LF, LF, LF, 98, LF>>, <<SP, 98>>}
+PE == [order |-> <<>>, values |-> <<>>]
 P1(v) == [order |-> << <<75>> >>, values |-> << <<<<75>>, v>> >>]
 P2(v, w) == [order |-> << <<75>>, <<76, 45, 77>> >>, values |-> << <<<<75>>, v>>, <<<<76, 45, 77>>, w>> >>]
 ParaVecs == {[k |-> "write", paras |-> <<P1(v)>>] : v \in Values}
        \cup {[k |-> "write", paras |-> <<P2(v, w)>>] : v \in SmallValues, w \in Values}
        \cup {[k |-> "write", paras |-> <<P1(v), P2(w, v), P1(w)>>] : v \in SmallValues, w \in SmallValues}
+       \* paragraphs without any field between / before / after real ones: they must not eat a separator
+       \cup {[k |-> "write", paras |-> ps] : ps \in {<<P1(<<97>>), PE, P1(<<98>>)>>, <<PE, P1(<<97>>), P1(<<98>>)>>, <<P1(<<97>>), P1(<<98>>), PE>>,
+                                                    <<P1(<<97>>), PE, PE, P2(<<98>>, <<99>>)>>, <<PE>>, <<PE, PE, P1(<<97>>)>>}}
 
 ASSUME Emit(CASE Mode = "tokdocs"  -> SetToSeq({[k |-> Kind, doc |-> d] : d \in TokDocs})
               [] Mode = "bytedocs" -> SetToSeq({[k |-> Kind, doc |-> d] : d \in ByteDocs})
